@@ -1,384 +1,259 @@
 """
 C15 -- site multiplicity equals the number of symmetry-equivalent positions in the cell.
 
- image      E3: the i-th image is R_i x + t_i (the tabulated rotation acts on the position
-            column from the left) for symbolic R, t, x
- lattice    the predicate that identifies two images is evaluated in a small abstract domain
-            (each component of the difference is an integer, an integer +- a rounding error,
-            or a genuine fraction): it must hold for all 27 near-integer patterns and fail as
-            soon as one component is a genuine fraction -- i.e. it must be a TWO-SIDED distance
-            to the lattice
- tolerance  its literal lies in [1e-5, 1e-2]
- loop       every image i >= 1 is compared with every current representative and appended
-            exactly when none matches; all nsymop operations are used
- dispatch   by name and by number/setting reach sg.sg with the caller's cell_choice
+`multiplicity` is *evaluated* (E7) on small model groups; tolerance comparisons are decided in the interval domain
+(xfabsa/intervals.py) from bounds of the symbolic quantities -- "an integer plus a rounding error of at most 1e-6",
+"a genuine fraction" -- so the code may compute the images, the distance to the lattice and the count in any way.
+
+ lattice    two operations whose images differ by (integer | integer +- rounding error | genuine fraction) per component,
+            all 64 patterns: one site exactly when no component is a genuine fraction (a TWO-SIDED distance)
+ loop       four operations, all 15 partitions into classes of lattice-equivalent images: the count is the number of classes
+ image      the group {1, 3-fold} on the special position (1/3, 2/3, z): one site for R.x + t, two for x.R + t
+ tolerance  every tolerance literal met lies in [1e-5, 1e-2]
+ dispatch   sg.sg receives the caller's name / number and cell_choice; ValueError when neither is given; the result of a
+            call does not depend on the calls made before it (group objects cached under a colliding key)
 """
 import ast
 import itertools
+from fractions import Fraction
 
 from xfabsa import core, numeric as N
 from xfabsa.core import AnalysisError
 from xfabsa.poly import Rat
-from xfabsa.symeval import Evaluator, sym_array, Arr, Opaque, Obj, scalar, materialise
+from xfabsa.symeval import Arr, Obj, RaiseReached, scalar, const_int
+from xfabsa.objeval import ObjEvaluator, PyRaise, exc_name_of, okey
+from xfabsa.intervals import ieval, Unbounded
 
 TOL_MIN, TOL_MAX = 1e-5, 1e-2
+NODE = ast.Constant(value=0)
+NODE.lineno = 0
+I3 = [[1, 0, 0], [0, 1, 0], [0, 0, 1]]
+ERR = (Fraction(1, 10 ** 9), Fraction(1, 10 ** 6))       # magnitude of an accumulated rounding error of a tabulated third
 
 
-# --------------------------------------------------------------------------
-# abstract domain for "distance to the lattice"
-# --------------------------------------------------------------------------
-ORDER = {"0": 0, "eps": 1, "mid": 2, "1-eps": 3, "one": 4}
+def rc(x):
+    return x if isinstance(x, Rat) else Rat.const(x)
 
 
-class Cancel(Exception):
-    pass
+class Session:
+    """one process: an evaluator of xfab/structure.py whose sg.sg is a model returning `groups(kwargs)`"""
 
-
-class LatticeDomain:
-    """abstract evaluation of a predicate over the difference vector t"""
-
-    def __init__(self, mod, tname, pattern):
+    def __init__(self, mod, groups, bounds=None):
         self.mod = mod
-        self.tname = tname
-        self.pattern = pattern      # per component: '0', '+', '-', 'f'
-        self.tol = None
+        self.groups = groups
+        self.bounds = dict(bounds or {})
+        self.sg_calls = []
+        self.tolerances = []
+        self.ev = ObjEvaluator(mod, inline=set(), import_policy=self.ipol, max_depth=10)
+        self.ev.threshold_policy = self.threshold
+        self.ev.threshold_max = Fraction(1, 2)          # any literal a distance to the lattice is compared with
+        self.sgmod = core.module("xfab/sg.py")
+        self._sgconst = {}
 
-    def ev(self, node):
-        m = getattr(self, "v_" + type(node).__name__, None)
-        if m is None:
-            raise AnalysisError("lattice predicate: unsupported construct %s (`%s`)" % (type(node).__name__, core.unparse(node)[:50]))
-        return m(node)
+    def ipol(self, name, args, kwargs, node):
+        if name == "xfab.sg.sg":
+            init = self.sgmod.method("sg", "__init__")
+            params = [a.arg for a in init.args.args][1:]
+            bound = {}
+            for p, a in zip(params, args):
+                bound[p] = a
+            for k, v in kwargs.items():
+                if k not in params or k in bound:
+                    raise PyRaise("TypeError", node, "sg.sg() got an unexpected / repeated argument %s" % k)
+                bound[k] = v
+            for p, d in zip(params[len(params) - len(init.args.defaults):], init.args.defaults):
+                bound.setdefault(p, ast.literal_eval(d))
+            self.sg_calls.append(dict(bound))
+            return self.groups(bound, self)
+        return NotImplemented
 
-    def v_Name(self, node):
-        if node.id == self.tname:
-            return ("vec", [("raw", d) for d in self.pattern])
-        raise AnalysisError("lattice predicate mentions `%s`" % node.id)
+    def group(self, ops, tag="g"):
+        """ops: [(3x3 rotation, 3-vector translation)] with numbers / normal forms"""
+        o = self.ev.new_obj("mysg")
+        o.attrs.update(nsymop=Rat.const(len(ops)), nuniq=Rat.const(len(ops)),
+                       rot=Arr([[[rc(x) for x in row] for row in R] for R, _t in ops]),
+                       trans=Arr([[rc(x) for x in t] for _R, t in ops]))
+        return o
 
-    def v_Constant(self, node):
-        return ("num", float(node.value))
+    def threshold(self, q, t, node):
+        self.tolerances.append((float(t), node))
+        try:
+            lo, hi = ieval(q, self.bounds)
+        except Unbounded as e:
+            raise AnalysisError("the quantity compared with the tolerance %g cannot be enclosed on the abstract input: %s" % (float(t), e))
+        if hi < t:
+            return True
+        if lo > t:
+            return False
+        raise AnalysisError("tolerance comparison undecided on the abstract input: [%.3g, %.3g] against %g" % (float(lo), float(hi), float(t)))
 
-    def npname(self, f):
-        if isinstance(f, ast.Attribute) and isinstance(f.value, ast.Name) and f.value.id in self.mod.np_alias:
-            return f.attr
-        if isinstance(f, ast.Name) and f.id in ("abs", "sum", "max", "min", "all", "any", "round"):
-            return f.id
-        if isinstance(f, ast.Attribute):
-            return "." + f.attr
-        return None
+    def call(self, position, **kw):
+        try:
+            out = self.ev.call_function("multiplicity", [Arr([rc(x) for x in position])], dict(kw))
+        except (PyRaise, RaiseReached) as e:
+            return "raise", exc_name_of(e)
+        ci = const_int(out) if not isinstance(out, bool) else None
+        if ci is None:
+            raise AnalysisError("multiplicity does not evaluate to an integer on the model group (%s)" % okey(out))
+        return "ok", ci
 
-    def lift(self, fn, v):
-        if v[0] == "vec":
-            return ("vec", [fn(x) for x in v[1]])
-        return fn(v)
 
-    def v_Call(self, node):
-        name = self.npname(node.func)
-        args = [self.ev(a) for a in node.args]
-        if name and name.startswith("."):
-            args = [self.ev(node.func.value)] + args
-            name = name[1:]
-        if name == "mod" and len(args) == 2 and args[1] == ("num", 1.0):
-            return self.lift(lambda x: self.mod1(x), args[0])
-        if name in ("round", "rint", "around") and len(args) == 1:
-            return self.lift(lambda x: ("int_of", x[1]) if x[0] == "raw" else self.bad("round of %r" % (x,)), args[0])
-        if name in ("abs", "absolute", "fabs") and len(args) == 1:
-            return self.lift(self.abs_, args[0])
-        if name == "minimum" and len(args) == 2:
-            return self.zip2(self.min_, args[0], args[1])
-        if name in ("sum",) and len(args) == 1:
-            return self.sum_(args[0])
-        if name in ("max", "amax") and len(args) == 1:
-            return self.max_(args[0])
-        if name in ("all",) and len(args) == 1:
-            v = args[0]
-            if v[0] == "vec" and all(x[0] == "bool" for x in v[1]):
-                return ("bool", all(x[1] for x in v[1]))
-        if name == "allclose" and len(args) == 2:
-            atol = 1e-8
-            for k in node.keywords:
-                if k.arg == "atol":
-                    atol = float(ast.literal_eval(k.value))
-                elif k.arg == "rtol":
-                    pass
-            self.tol = atol
-            d = self.zip2(self.sub_, args[0], args[1])
-            d = self.lift(self.abs_, d)
-            return ("bool", all(self.small(x) for x in d[1]))
-        if name == "norm" or (isinstance(node.func, ast.Attribute) and node.func.attr == "norm"):
-            return self.sum_(self.lift(self.abs_, args[0]))
-        raise AnalysisError("lattice predicate: unsupported call `%s`" % core.unparse(node)[:60])
-
-    def bad(self, what):
-        raise AnalysisError("lattice predicate: %s" % what)
-
-    def mod1(self, x):
-        if x[0] == "raw":
-            return ("mag", {"0": "0", "+": "eps", "-": "1-eps", "f": "mid"}[x[1]])
-        if x[0] == "mag" and x[1] in ("0", "eps", "mid", "1-eps"):
-            return x
-        if x[0] == "shift":      # raw + 0.5
-            return ("mag", {"0": "mid", "+": "mid", "-": "mid", "f": "any"}[x[1]])
-        self.bad("mod of %r" % (x,))
-
-    def abs_(self, x):
-        if x[0] == "mag":
-            return ("mag", {"-eps": "eps", "smid": "mid"}.get(x[1], x[1]))
-        self.bad("abs of %r" % (x,))
-
-    def min_(self, a, b):
-        if a[0] == "mag" and b[0] == "mag" and a[1] in ORDER and b[1] in ORDER:
-            return a if ORDER[a[1]] <= ORDER[b[1]] else b
-        self.bad("minimum of %r and %r" % (a, b))
-
-    def sub_(self, a, b):
-        if a[0] == "raw" and b[0] == "int_of" and a[1] == b[1]:
-            return ("mag", {"0": "0", "+": "eps", "-": "-eps", "f": "smid"}[a[1]])
-        if a[0] == "num" and a[1] == 1.0 and b[0] == "mag":
-            return ("mag", {"0": "one", "eps": "1-eps", "1-eps": "eps", "mid": "mid"}[b[1]])
-        self.bad("difference %r - %r" % (a, b))
-
-    def zip2(self, fn, a, b):
-        if a[0] == "vec" and b[0] == "vec":
-            return ("vec", [fn(x, y) for x, y in zip(a[1], b[1])])
-        if a[0] == "vec":
-            return ("vec", [fn(x, b) for x in a[1]])
-        if b[0] == "vec":
-            return ("vec", [fn(a, y) for y in b[1]])
-        return fn(a, b)
-
-    def small(self, x):
-        if x[0] == "mag":
-            if x[1] in ("0", "eps"):
-                return True
-            if x[1] in ("mid", "1-eps", "one"):
-                return False
-            if x[1] == "-eps":
-                return True       # a negative rounding error is below any positive tolerance (one-sided!)
-            raise Cancel("signed value %s compared with the tolerance" % x[1])
-        if x[0] == "agg":
-            return x[1] == "small"
-        self.bad("comparison of %r" % (x,))
-
-    def sum_(self, v):
-        if v[0] != "vec":
-            self.bad("sum of a scalar")
-        tags = [x[1] for x in v[1] if x[0] == "mag"]
-        if len(tags) != len(v[1]):
-            self.bad("sum of %r" % (v,))
-        if any(t in ("smid",) for t in tags):
-            raise Cancel("signed mid-range residuals are summed without abs(): they can cancel")
-        if any(t in ("mid", "1-eps", "one", "any") for t in tags):
-            return ("agg", "large")
-        return ("agg", "small")      # 0, eps, -eps only
-
-    def max_(self, v):
-        return self.sum_(v)
-
-    def v_BinOp(self, node):
-        if isinstance(node.op, ast.Sub):
-            return self.zip2(self.sub_, self.ev(node.left), self.ev(node.right))
-        if isinstance(node.op, ast.Add):
-            a, b = self.ev(node.left), self.ev(node.right)
-            if b == ("num", 0.5):
-                return self.lift(lambda x: ("shift", x[1]) if x[0] == "raw" else self.bad("shift"), a)
-        raise AnalysisError("lattice predicate: unsupported arithmetic `%s`" % core.unparse(node)[:60])
-
-    def v_Compare(self, node):
-        if len(node.ops) != 1 or not isinstance(node.ops[0], (ast.Lt, ast.LtE)):
-            raise AnalysisError("lattice predicate: comparison `%s`" % core.unparse(node)[:60])
-        left = self.ev(node.left)
-        right = self.ev(node.comparators[0])
-        if right[0] != "num":
-            raise AnalysisError("lattice predicate: tolerance is not a literal")
-        self.tol = right[1]
-        if left[0] == "vec":
-            return ("vec", [("bool", self.small(x)) for x in left[1]])
-        return ("bool", self.small(left))
+def partitions(n):
+    """restricted growth strings: class index of each of n images, classes numbered by first occurrence"""
+    def rec(prefix, mx):
+        if len(prefix) == n:
+            yield tuple(prefix)
+            return
+        for k in range(mx + 2):
+            yield from rec(prefix + [k], max(mx, k))
+    yield from rec([0], 0)
 
 
 def run(ctx):
     from xfabsa import numeric as _N
     _N.alias_rule(ctx, 'C15', ['xfab/structure.py', 'xfab/sg.py'])
-    ctx.rule("image", "image i == R_i . x + t_i (E3, symbolic R, t, x)")
-    ctx.rule("lattice", "identification predicate is true on all 27 near-integer patterns and false when a component is a fraction")
-    ctx.rule("tolerance", "tolerance literal within [1e-5, 1e-2]")
-    ctx.rule("loop", "compare image i with every current representative; append exactly when none matches; all nsymop used")
-    ctx.rule("dispatch", "sg.sg(sgname=.., cell_choice=cell_choice) / sg.sg(sgno=.., cell_choice=cell_choice) / ValueError")
+    ctx.rule("lattice", "two images differing by integer / integer +- rounding / fraction per component (64 patterns): one site iff no fraction")
+    ctx.rule("loop", "four operations, all 15 partitions into lattice-equivalence classes: count == number of classes")
+    ctx.rule("image", "group {1, 3} on (1/3, 2/3, z): one site (R.x + t); the transposed action would give two")
+    ctx.rule("tolerance", "tolerance literals within [1e-5, 1e-2]")
+    ctx.rule("dispatch", "sg.sg gets the caller's name / number and cell_choice; ValueError without either; no dependence on earlier calls")
     mod = core.module("xfab/structure.py")
     fn = mod.func("multiplicity")
     ctx.saw(mod, fn)
     where = core.loc(mod, fn)
-    body = core.body_wo_doc(fn)
+    pos_atoms = [Rat.atom("x%d" % c) for c in range(3)]
+    pos_bounds = {"x0": (Fraction(11, 100), Fraction(12, 100)), "x1": (Fraction(27, 100), Fraction(28, 100)), "x2": (Fraction(6, 100), Fraction(7, 100))}
+    tolerances = []
+    # ---- lattice predicate: 64 patterns
+    miss, extra = [], []
+    for pat in itertools.product("0+-f", repeat=3):
+        bounds = dict(pos_bounds)
+        v = []
+        for c, d in enumerate(pat):
+            base = Rat.const((1, -2, 3)[c])
+            if d == "0":
+                v.append(base)
+            elif d in "+-":
+                bounds["e%d" % c] = ERR
+                v.append(base + Rat.atom("e%d" % c) * (1 if d == "+" else -1))
+            else:
+                bounds["f%d" % c] = (Fraction(3, 10), Fraction(4, 10))
+                v.append(base + Rat.atom("f%d" % c))
+        s = Session(mod, lambda kw, ses, v=v: ses.group([(I3, [0, 0, 0]), (I3, v)]), bounds)
+        kind, got = s.call(pos_atoms, sgname="P1")
+        tolerances += s.tolerances
+        want = 2 if "f" in pat else 1
+        if kind != "ok":
+            raise AnalysisError("multiplicity raises %s on a two-operation model group" % got)
+        if got != want:
+            (extra if "f" in pat else miss).append(pat)
+    msg = ""
+    if miss:
+        msg = ("equal-modulo-lattice images are NOT identified when a component of the difference is %s "
+               "(%d of 27 near-integer patterns fail): the distance to the lattice is one-sided"
+               % ("an integer minus a rounding error" if any("-" in p for p in miss) else "near an integer", len(miss)))
+    if extra:
+        msg += " distinct images are identified for %d patterns with a fractional component" % len(extra)
+    ctx.check(not miss and not extra, "C15:lattice:multiplicity", msg, where,
+              sample={"patterns": 64, "near_integer_accepted": 27 - len(miss), "fraction_rejected": 37 - len(extra)})
+    # ---- counting loop: all partitions of four images
+    bad = []
+    for part in partitions(4):
+        bounds = dict(pos_bounds)
+        ops = []
+        for i, k in enumerate(part):
+            t = []
+            for c in range(3):
+                fa = "F%d%d" % (k, c)
+                bounds[fa] = (Fraction(10 + 10 * k, 100), Fraction(11 + 10 * k, 100))
+                ea = "e%d%d" % (i, c)
+                bounds[ea] = ERR
+                sign = 1 if (i + c) % 2 else -1
+                t.append(Rat.atom(fa) + Rat.const((i, -i, 2 * i)[c]) + (Rat.atom(ea) * sign if i else Rat.const(0)))
+            ops.append((I3, t))
+        s = Session(mod, lambda kw, ses, ops=ops: ses.group(ops), bounds)
+        kind, got = s.call(pos_atoms, sgno=Rat.const(1))
+        tolerances += s.tolerances
+        if kind != "ok" or got != max(part) + 1:
+            bad.append((part, got))
+    ctx.check(not bad, "C15:loop:multiplicity",
+              "with the images in the classes %s (same number = equal modulo the lattice) multiplicity returns %s, not the number of "
+              "classes: every image must be compared with every representative and appended exactly when none matches"
+              % (bad[0][0] if bad else "", bad[0][1] if bad else ""), where,
+              sample={"partitions_of_4": 15, "wrong": len(bad)})
+    # ---- how the rotation acts: 3-fold axis of the hexagonal frame, special position on it
+    A = [[0, -1, 0], [1, -1, 0], [0, 0, 1]]
+    s = Session(mod, lambda kw, ses: ses.group([(I3, [0, 0, 0]), (A, [0, 0, 0])]), {"z": (Fraction(1, 10), Fraction(2, 10))})
+    kind, got = s.call([Fraction(1, 3), Fraction(2, 3), Rat.atom("z")], sgname="P1")
+    tolerances += s.tolerances
+    which = " (it is x.R + t: the transposed rotation acts on the position, wrong for every non-symmetric rotation matrix)" if got == 2 else ""
+    ctx.check(kind == "ok" and got == 1, "C15:image:multiplicity",
+              "image i is not rot[i].position + trans[i]%s: the position (1/3, 2/3, z) on the 3-fold axis [[0,-1,0],[1,-1,0],[0,0,1]] "
+              "gets multiplicity %s in the group {1, 3}" % (which, got), where, sample={"position": "(1/3, 2/3, z)", "multiplicity": got})
+    # a position off the axis has two images
+    s = Session(mod, lambda kw, ses: ses.group([(I3, [0, 0, 0]), (A, [0, 0, 0])]), pos_bounds)
+    kind, got = s.call(pos_atoms, sgname="P1")
+    ctx.check(kind == "ok" and got == 2, "C15:image:general-position", "a general position has %s image(s) under {1, 3}" % got, where)
+    # ---- tolerance window
+    tols = sorted({t for t, _n in tolerances})
+    if not tols:
+        raise AnalysisError("multiplicity: no tolerance comparison met on the model groups")
+    ctx.check(all(TOL_MIN <= t <= TOL_MAX for t in tols), "C15:tolerance:multiplicity",
+              "tolerance %s outside [%g, %g]: must exceed the accumulated 1e-6 rounding of tabulated thirds and stay below "
+              "the smallest distance between distinct special positions" % (tols, TOL_MIN, TOL_MAX), where)
     # ---- dispatch
-    disp = body[0] if body and isinstance(body[0], ast.If) else None
-    okd = False
-    if disp is not None:
-        def sgcall(st, kw):
-            if not (isinstance(st, ast.Assign) and isinstance(st.value, ast.Call)):
-                return False
-            c = st.value
-            f = c.func
-            if not (isinstance(f, ast.Attribute) and f.attr == "sg" and isinstance(f.value, ast.Name)
-                    and mod.imports.get(f.value.id) == "xfab.sg"):
-                return False
-            k = {x.arg: x.value for x in c.keywords}
-            return (not c.args and set(k) == {kw, "cell_choice"} and isinstance(k[kw], ast.Name) and k[kw].id == kw
-                    and isinstance(k["cell_choice"], ast.Name) and k["cell_choice"].id == "cell_choice")
-        a1 = len(disp.body) == 1 and sgcall(disp.body[0], "sgname")
-        e = disp.orelse[0] if len(disp.orelse) == 1 and isinstance(disp.orelse[0], ast.If) else None
-        a2 = e is not None and len(e.body) == 1 and sgcall(e.body[0], "sgno")
-        a3 = e is not None and len(e.orelse) == 1 and isinstance(e.orelse[0], ast.Raise) and \
-            getattr(getattr(e.orelse[0].exc, "func", None), "id", "") == "ValueError"
-        same_target = a1 and a2 and disp.body[0].targets[0].id == e.body[0].targets[0].id
-        okd = a1 and a2 and a3 and same_target
+    def by_args(kw, ses):
+        # a group whose size tells the requested setting apart
+        key = (okey(kw.get("sgname")), okey(kw.get("sgno")), okey(kw.get("cell_choice")))
+        sizes = ses.__dict__.setdefault("sizes", {})
+        if key not in sizes:
+            sizes[key] = GROUP_SIZE.get(key, 1 + len(sizes) % 3)
+        n_ = sizes[key]
+        return ses.group([(I3, [Fraction(k, 4), 0, 0]) for k in range(n_)])
+    requests = [dict(sgname="R3", cell_choice="standard"), dict(sgname="R3r", cell_choice="standard"),
+                dict(sgno=Rat.const(146), cell_choice="standard"), dict(sgno=Rat.const(146), cell_choice="rhombohedral"),
+                dict(sgname="P 21/c", cell_choice="standard"), dict(sgname="p21/c", cell_choice="standard")]
+    GROUP_SIZE = {}
+    for k, r in enumerate(requests):
+        GROUP_SIZE[(okey(r.get("sgname")), okey(r.get("sgno")), okey(r["cell_choice"]))] = (1, 2, 3, 2, 4, 4)[k]
+    okd, why = True, ""
+    fresh = {}
+    for k, r in enumerate(requests):
+        s = Session(mod, by_args, pos_bounds)
+        kind, got = s.call(pos_atoms, **r)
+        fresh[k] = (kind, got)
+        sel = "sgname" if "sgname" in r else "sgno"
+        good = kind == "ok" and len(s.sg_calls) == 1 and okey(s.sg_calls[0].get(sel)) == okey(r[sel]) \
+            and okey(s.sg_calls[0].get("cell_choice")) == okey(r["cell_choice"]) \
+            and s.sg_calls[0].get("sgno" if sel == "sgname" else "sgname") is None and got == (1, 2, 3, 2, 4, 4)[k]
+        if not good and okd:
+            okd, why = False, "called with %s, sg.sg received %s (result %s)" % (
+                {a: okey(b) for a, b in r.items()}, [{a: okey(b) for a, b in c.items()} for c in s.sg_calls], (kind, got))
+    s = Session(mod, by_args, pos_bounds)
+    none = s.call(pos_atoms)
+    if none != ("raise", "ValueError") and okd:
+        okd, why = False, "without sgname and sgno the outcome is %s, not ValueError" % (none,)
     ctx.check(okd, "C15:dispatch:multiplicity",
               "the group is not obtained as sg.sg(sgname=sgname, cell_choice=cell_choice) / sg.sg(sgno=sgno, cell_choice=cell_choice) "
-              "(ValueError when neither is given)", where)
-    sgvar = disp.body[0].targets[0].id if okd else "mysg"
-    # ---- image expression: the array whose rows are compared (`t = lp[i] - rep[j]`) is either filled row by row in a loop
-    # over range(nsymop) or computed in one vectorised expression
-    lpname = None
-    for n_ in ast.walk(fn):
-        if isinstance(n_, ast.Assign) and isinstance(n_.value, ast.BinOp) and isinstance(n_.value.op, ast.Sub) \
-                and isinstance(n_.value.left, ast.Subscript) and isinstance(n_.value.right, ast.Subscript) \
-                and isinstance(n_.value.left.value, ast.Name) and isinstance(n_.value.right.value, ast.Name):
-            lpname = n_.value.left.value.id
-    if lpname is None:
-        raise AnalysisError("multiplicity: difference of two images `t = lp[i] - rep[j]` not found")
-    x = sym_array("position", (3,))
-    sgo = Obj("mysg", nsymop=Rat.const(2), rot=sym_array("R", (2, 3, 3)), trans=sym_array("t", (2, 3)), nuniq=Rat.const(1))
-    pname = fn.args.args[0].arg
-    img_rows = None          # list of 3-vectors (normal forms), one per operation
-    img_node = None
-    loop = None
-    for node in ast.walk(fn):
-        if isinstance(node, ast.For) and core.unparse(node.iter).replace(" ", "") == "range(%s.nsymop)" % sgvar:
-            for st in node.body:
-                if isinstance(st, ast.Assign) and isinstance(st.targets[0], ast.Subscript) \
-                        and isinstance(st.targets[0].value, ast.Name) and st.targets[0].value.id == lpname:
-                    ivar = node.target.id
-                    if core.unparse(st.targets[0].slice).replace(" ", "").strip("()") not in ("%s,:" % ivar, ivar):
-                        raise AnalysisError("multiplicity: image store `%s` is not a row store" % core.unparse(st.targets[0]))
-                    rows = []
-                    for k in range(2):
-                        val = Evaluator(mod, inline=set()).eval(st.value, {pname: x, sgvar: sgo, ivar: Rat.const(k)})
-                        V = val if isinstance(val, Arr) else materialise(val)
-                        if V is None or V.shape != (3,):
-                            raise AnalysisError("multiplicity: image expression is not a 3-vector")
-                        rows.append([scalar(v) for v in V.data])
-                    img_rows, img_node, loop = rows, st, node
-    if img_rows is None:
-        cands = [n_ for n_ in core.body_wo_doc(fn) if isinstance(n_, ast.Assign) and isinstance(n_.targets[0], ast.Name)
-                 and n_.targets[0].id == lpname and not (isinstance(n_.value, ast.Call) and getattr(n_.value.func, "attr", "") in ("zeros", "empty"))]
-        if len(cands) != 1:
-            raise AnalysisError("multiplicity: neither a row-by-row loop over range(%s.nsymop) nor one vectorised assignment fills `%s`" % (sgvar, lpname))
-        val = Evaluator(mod, inline=set()).eval(cands[0].value, {pname: x, sgvar: sgo})
-        V = val if isinstance(val, Arr) else materialise(val)
-        if V is None or V.shape != (2, 3):
-            raise AnalysisError("multiplicity: vectorised image expression does not evaluate to one row per operation")
-        img_rows = [[scalar(v) for v in row] for row in V.data]
-        img_node = cands[0]
-    ok = True
-    transposed = True
-    for k in range(2):
-        want = [sum((Rat.atom("R[%d,%d,%d]" % (k, p, q)) * Rat.atom("position[%d]" % q) for q in range(3)), Rat.const(0))
-                + Rat.atom("t[%d,%d]" % (k, p)) for p in range(3)]
-        wrong = [sum((Rat.atom("position[%d]" % q) * Rat.atom("R[%d,%d,%d]" % (k, q, p)) for q in range(3)), Rat.const(0))
-                 + Rat.atom("t[%d,%d]" % (k, p)) for p in range(3)]
-        ok = ok and all(g.equals(w) for g, w in zip(img_rows[k], want))
-        transposed = transposed and all(g.equals(w) for g, w in zip(img_rows[k], wrong))
-    which = " (it is x.R + t: the transposed rotation acts on the position, wrong for every non-symmetric rotation matrix)" \
-        if (not ok and transposed) else ""
-    ctx.check(ok, "C15:image:multiplicity", "image i is not rot[i].position + trans[i]%s" % which, core.loc(mod, img_node),
-              sample={"image_expression": core.unparse(img_node.value)})
-    # ---- comparison loop
-    cmp_loop = None
-    for node in core.body_wo_doc(fn):
-        if isinstance(node, ast.For) and node is not loop and any(isinstance(x_, ast.For) for x_ in node.body):
-            cmp_loop = node
-    if cmp_loop is None:
-        raise AnalysisError("multiplicity: comparison loop not found")
-    inner = [x_ for x_ in cmp_loop.body if isinstance(x_, ast.For)][0]
-    outer_rng = core.unparse(cmp_loop.iter).replace(" ", "")
-    ok_outer = outer_rng in ("range(1,%s.nsymop)" % sgvar, "range(%s.nsymop)" % sgvar)
-    # inner: for j in range(multi): t = lp[i]-lpu[j]; if pred: break; else: if j == multi-1: append; multi += 1
-    ok_inner = False
-    pred = tname = None
-    cnt = None
-    if isinstance(inner.iter, ast.Call) and getattr(inner.iter.func, "id", "") == "range" and len(inner.iter.args) == 1 \
-            and isinstance(inner.iter.args[0], ast.Name):
-        cnt = inner.iter.args[0].id
-        jv = inner.target.id
-        ib = inner.body
-        if len(ib) == 2 and isinstance(ib[0], ast.Assign) and isinstance(ib[1], ast.If):
-            tname = ib[0].targets[0].id
-            diff = core.unparse(ib[0].value).replace(" ", "")
-            iv = cmp_loop.target.id
-            m_ = [s_ for s_ in diff.replace("[", " ").replace("]", " ").replace("-", " ").split()]
-            okdiff = isinstance(ib[0].value, ast.BinOp) and isinstance(ib[0].value.op, ast.Sub) and \
-                diff.startswith("%s[%s" % (lpname, iv)) and ("[%s" % jv) in diff.split("-", 1)[1]
-            repname = diff.split("-", 1)[1].split("[")[0]
-            branch = ib[1]
-            pred = branch.test
-            brk = len(branch.body) == 1 and isinstance(branch.body[0], ast.Break)
-            app = False
-            # else: if j == multi-1: append + count  |  for-else
-            tail = branch.orelse
-            if len(tail) == 1 and isinstance(tail[0], ast.If) and \
-                    core.unparse(tail[0].test).replace(" ", "") == "%s==%s-1" % (jv, cnt) and not tail[0].orelse:
-                tb = tail[0].body
-                txt = " ".join(core.unparse(s_) for s_ in tb).replace(" ", "")
-                app = ("%s=" % repname in txt and "concatenate" in txt and "%s[%s" % (lpname, iv) in txt
-                       and ("%s+=1" % cnt in txt or "%s=%s+1" % (cnt, cnt) in txt) and len(tb) == 2)
-            elif not tail and inner.orelse:
-                txt = " ".join(core.unparse(s_) for s_ in inner.orelse).replace(" ", "")
-                app = ("%s=" % repname in txt and "%s[%s" % (lpname, iv) in txt
-                       and ("%s+=1" % cnt in txt or "%s=%s+1" % (cnt, cnt) in txt) and len(inner.orelse) == 2)
-            ok_inner = okdiff and brk and app
-    ctx.check(ok_outer and ok_inner, "C15:loop:multiplicity",
-              "comparison loop is not `for i in range(1, nsymop): for j in range(count): t = lp[i]-rep[j]; if <same>: break; "
-              "else: if j == count-1: append lp[i]; count += 1` (outer range `%s`)" % outer_rng, core.loc(mod, cmp_loop))
-    # returned value is the counter
-    rets = [n_ for n_ in ast.walk(fn) if isinstance(n_, ast.Return)]
-    ctx.check(len(rets) == 1 and isinstance(rets[0].value, ast.Name) and rets[0].value.id == cnt, "C15:loop:returns-count",
-              "multiplicity does not return the number of representatives", where)
-    # ---- lattice predicate
-    if pred is None:
-        raise AnalysisError("multiplicity: identification predicate not found")
-    verdicts = {}
-    tol = None
-    cancel = None
-    for pat in itertools.product("0+-f", repeat=3):
-        dom = LatticeDomain(mod, tname, pat)
-        try:
-            r = dom.ev(pred)
-        except Cancel as e:
-            cancel = str(e)
-            break
-        if r[0] != "bool":
-            raise AnalysisError("lattice predicate does not evaluate to a truth value")
-        verdicts[pat] = r[1]
-        tol = dom.tol if dom.tol is not None else tol
-    if cancel:
-        ctx.fail("C15:lattice:multiplicity", "identification predicate is unsound: %s" % cancel, core.loc(mod, pred))
-    else:
-        miss = [p for p, v in verdicts.items() if ("f" not in p) and not v]
-        extra = [p for p, v in verdicts.items() if ("f" in p) and v]
-        msg = ""
-        if miss:
-            msg = ("equal-modulo-lattice images are NOT identified when a component of the difference is %s "
-                   "(%d of 27 near-integer patterns fail): the distance to the lattice is one-sided"
-                   % ("an integer minus a rounding error" if any("-" in p for p in miss) else "near an integer", len(miss)))
-        if extra:
-            msg += " distinct images are identified for %d patterns with a fractional component" % len(extra)
-        ctx.check(not miss and not extra, "C15:lattice:multiplicity", msg, core.loc(mod, pred),
-                  sample={"predicate": core.unparse(pred), "patterns": 64, "near_integer_accepted": 27 - len(miss)})
-        ctx.check(tol is not None and TOL_MIN <= tol <= TOL_MAX, "C15:tolerance:multiplicity",
-                  "tolerance %s outside [%g, %g]: must exceed the accumulated 1e-6 rounding of tabulated thirds and stay below "
-                  "the smallest distance between distinct special positions" % (tol, TOL_MIN, TOL_MAX), core.loc(mod, pred))
+              "(ValueError when neither is given): %s" % why, where)
+    hist = []
+    for i, j in itertools.permutations(range(len(requests)), 2):
+        s = Session(mod, by_args, pos_bounds)
+        s.call(pos_atoms, **requests[i])
+        second = s.call(pos_atoms, **requests[j])
+        if second != fresh[j]:
+            hist.append((i, j, second))
+    ctx.check(not hist, "C15:dispatch:history",
+              "the result for %s changes from %s to %s when %s was requested before it in the same process: group objects are shared "
+              "under a key that does not determine the setting"
+              % ({a: okey(b) for a, b in requests[hist[0][1]].items()} if hist else "", fresh[hist[0][1]] if hist else "",
+                 hist[0][2] if hist else "", {a: okey(b) for a, b in requests[hist[0][0]].items()} if hist else ""), where,
+              sample={"ordered_pairs": 30, "history_dependent": len(hist)})
     ctx.not_decided += ["the choice of the tolerance inside its window is numerical",
                         "that the count equals nsymop / |site symmetry| follows on paper from C04 (group) and these rules"]
-    ctx.assumptions += ["C04", "numpy mod/round/abs/sum semantics"]
-    return ("multiplicity decided by parts: the image expression by E3 on symbolic operations (R x + t), the identification "
-            "predicate by abstract evaluation on all 64 integer/rounding/fraction patterns of the difference vector, the "
-            "tolerance literal, the compare-with-every-representative loop shape, and the by-name/by-number dispatch.")
+    ctx.assumptions += ["C04", "numpy mod/round/abs/sum/max semantics (interval versions in xfabsa/intervals.py)",
+                        "the code treats operations uniformly: model groups of 2 and 4 operations stand for any group"]
+    return ("multiplicity evaluated by E7 on model groups with tolerance tests decided in the interval domain: all 64 "
+            "integer/rounding/fraction patterns of the difference of two images, all 15 partitions of four images into lattice "
+            "classes, the special position on a 3-fold axis (R.x versus x.R), the tolerance window, the sg.sg arguments for six "
+            "requests with ValueError without any, and independence of all 30 ordered pairs of requests from each other.")
